@@ -84,17 +84,21 @@ def vi_case(rng):
             return -a * jnp.sum((p - b) ** 2)
         p0 = jnp.asarray([init, init + 1.0]) if vec else jnp.float32(init)
         res = optimize_vi(obj, p0, learning_rate=lr, n_iterations=n)
+        # without history tracking the final parameters are the same and no history is returned
+        res_nh = optimize_vi(obj, p0, learning_rate=lr, n_iterations=n, track_history=False)
+        c["nohist_ok"] = bool(np.allclose(np.asarray(res_nh.final_params), np.asarray(res.final_params))
+                              and np.asarray(res_nh.param_history).size == 0)
         hist = np.asarray(res.param_history)
         fin = np.asarray(res.final_params)
         if vec:
             c["hist"] = [fr(h[0]) for h in hist]
             c["final"] = fr(fin[0])
             # second coordinate starts at init+1: independent recurrence, checked against the first by shift
-            c["shape_ok"] = bool(hist.shape == (n, 2) and int(res.n_iterations.value) == n)
+            c["shape_ok"] = bool(hist.shape == (n, 2) and int(res.n_iterations.value) == n) and c["nohist_ok"]
         else:
             c["hist"] = [fr(h) for h in hist]
             c["final"] = fr(fin)
-            c["shape_ok"] = bool(hist.shape == (n,) and int(res.n_iterations.value) == n)
+            c["shape_ok"] = bool(hist.shape == (n,) and int(res.n_iterations.value) == n) and c["nohist_ok"]
     except Exception as e:  # noqa: BLE001
         c["err"] = type(e).__name__ + ": " + str(e)[:200]
     return c
@@ -152,6 +156,11 @@ def fam_case(rng):
             prim = jnp.asarray(m + [dk[i] * math.log(2.0) for i in range(nd)], dtype=jnp.float32)
             tang = jnp.asarray(dm + dls, dtype=jnp.float32)
             d = el.jvp_estimate(Dual(prim, tang))
+            # elbo_vi is optimize_vi on elbo_factory's objective (same scripted noise => same iterates)
+            r1 = elbo_vi(target, mean_field_normal_family(nd, "reparam"), prim, cons, (), learning_rate=0.125, n_iterations=2)
+            r2 = optimize_vi(el, prim, learning_rate=0.125, n_iterations=2)
+            if not np.allclose(np.asarray(r1.final_params), np.asarray(r2.final_params), rtol=1e-5, atol=1e-6):
+                raise ValueError("elbo_vi differs from optimize_vi(elbo_factory(...))")
         c["C"], c["dC"] = C, dC
         # remove the transcendental constants: + (1/2) ln 2 pi - sum_i ln C_ii
         c["p"] = fr(float(d.primal) + 0.5 * math.log(2 * math.pi) - sum(dk) * math.log(2.0))
